@@ -14,6 +14,9 @@ def handle_cell(cell: Cell, titles: Dict[str, int]):
         if cell.title not in titles:
             raise E2PyclCellException(f'There is no worksheet with the title of {cell}')
         cell.title = titles[cell.title]
+    elif isinstance(cell.title, int) and not isinstance(cell.title, bool) and titles and cell.title not in titles.values():
+        # sheets are numbered from 0 in workbook order: a number beyond the last one names no worksheet either
+        raise E2PyclCellException(f'There is no worksheet with the number of {cell}')
 
     if isinstance(cell.column, str):
         try:
